@@ -135,7 +135,7 @@ def run(ctx):
             # scalar call agrees with the array element
             if j == 0:
                 slon, slat, salt = orb.get_lonlatalt(t)
-                if abs(float(slon) - float(lon[j])) > 1e-9 or abs(float(slat) - float(lat[j])) > 1e-9 or abs(float(salt) - float(alt[j])) > 1e-6:
+                if abs(float(slon) - float(lon[j])) > 1e-6 or abs(float(slat) - float(lat[j])) > 1e-6 or abs(float(salt) - float(alt[j])) > 1e-6:
                     ctx.violation("scalar and array sub-satellite points differ", {"signature": "C04:scalar-array:%d" % ti, **base})
                 loc = orb.utc2local(t.astype(dt.datetime))
                 want = t.astype(dt.datetime) + dt.timedelta(hours=float(slon) / 15.0)
